@@ -6,6 +6,7 @@ import (
 	"fmt"
 	"math"
 	"math/big"
+	"strings"
 
 	"github.com/db47h/decimal"
 )
@@ -394,11 +395,11 @@ func floatLayers(tier string) []Layer {
 	{
 		fprecs := []uint{1, 24, 53, 64, 200, 2000}
 		fexps := []int{-3000, -1074, -64, -1, 0, 1, 63, 64, 1023, 3000}
-		bmants := []string{"1", "1.1", "1.0000000000000000000001", "1.1111111111111111111111111111111111111111111111111111", "1.01010101010101", "1.11111111", "1.000000000000000000000000000000000000000000000000000000000000001", "1.1001001000011111101101010100010001000010110100011"}
+		bmants := []string{"1", "1.1", "1.0000000000000000000001", "1.1111111111111111111111111111111111111111111111111111", "1.01010101010101", "1.11111111", "1.000000000000000000000000000000000000000000000000000000000000001", "1.1001001000011111101101010100010001000010110100011", "1." + strings.Repeat("0", 125) + "1", "1." + strings.Repeat("1", 189)}
 		layers = append(layers, Layer{
 			Name:   "H2-SetFloat",
 			Units:  len(fprecs) * len(fexps),
-			Bounds: fmt.Sprintf("SetFloat(x) for big.Float precision %v × binary exponents %v × 8 mantissa bit patterns × ± and ±0, ±Inf; receiver precision {0,1,5,17,34,100,1000} × modes Even/ToZero/AwayFromZero: sign and specials kept, exact when the expansion fits, else within 64 units", fprecs, fexps),
+			Bounds: fmt.Sprintf("SetFloat(x) for big.Float precision %v × binary exponents %v × 10 mantissa bit patterns (1..190 significant bits) × ± and ±0, ±Inf; receiver precision {0,1,5,17,34,100,1000} × modes Even/ToZero/AwayFromZero × receiver pre-states {fresh, +Inf, held-longer, big-dirty}: sign and specials kept, exact when the expansion fits, else within 64 units", fprecs, fexps),
 			Run: func(c *Ctx, u int) {
 				fp, fe := fprecs[u/len(fexps)], fexps[u%len(fexps)]
 				var xs []*big.Float
@@ -417,7 +418,7 @@ func floatLayers(tier string) []Layer {
 					ex := exactOfBigFloat(x)
 					for _, p := range []uint32{0, 1, 5, 17, 34, 100, 1000} {
 						for _, md := range []uint8{ToNearestEven, ToZero, AwayFromZero} {
-							for _, pre := range []int{preFresh, preInf} {
+							for _, pre := range []int{preFresh, preInf, preLonger, preBigDirty} {
 								if c.Skip() {
 									continue
 								}
